@@ -156,7 +156,7 @@ func (r *Runner) RunRacePlan(scn *RaceScenario, plan *replay.Plan) error {
 		return false
 	}
 	active := map[string]bool{"name.lookup": true, "name.flag": true, "name.store": true, "name.set": true, "name.recheck": true,
-		"kill.zombie": true, "unreg.delete": true, "unreg.name": true}
+		"kill.zombie": true, "unreg.delete": true, "unreg.release": true}
 	cfg := vsched.Config{
 		Active:      active,
 		Watched:     watched,
@@ -255,7 +255,7 @@ func (r *Runner) RunRacePlan(scn *RaceScenario, plan *replay.Plan) error {
 			return ok
 		},
 		From: map[string]string{"GLookup": "name.lookup", "GFlag": "name.flag", "GStore": "name.store", "GSet": "name.set", "GRecheck": "name.recheck",
-			"TStart": "start", "TSkip": "start", "TSwap": "kill.zombie", "TDelete": "unreg.delete", "TName": "unreg.name"},
+			"TStart": "start", "TSkip": "start", "TSwap": "kill.zombie", "TDelete": "unreg.delete", "TName": "unreg.release"},
 		Keys:       []string{"gres", "tres"},
 		Project:    project,
 		ProjectEnd: func() map[string]any { return projectw(true) },
